@@ -212,7 +212,7 @@ var plans = map[string]*propertyPlan{
 		Explain: "Router monitor (responseMut) with send credits: enqueue registers exactly the caller's channel under the request's message id before queuing; routeResponse sends only on the channel registered under the id, at most once, deletes a non-streaming entry in the same critical section and leaves every other entry untouched (frame over the whole map); unknown ids are dropped; every response constructed by the channel carries its node's id; reply channels are fresh per call; the message-id counter is only touched atomically."},
 	"C06": {ID: "C06", Level: "proof", Pkgs: rootPkg,
 		Explain: "Send loops of all call types: per node exactly one enqueue on that node's channel with the caller's request, or with exactly the per-node function's result for (request, node id); a node is skipped exactly when the per-node function's message is invalid (ProtoReflect().IsValid() is false - a typed nil in generated code), and skipped nodes are neither enqueued nor counted; the sender gives up on or sends a request only after it saw the node connected or tried to (re)connect for that very request; Unicast/Multicast wait for exactly as many send confirmations as they queued and for none with no-send-waiting; sendMsg routes the confirmation exactly once on every path, from the sender."},
-	"C07": {ID: "C07", Level: "other", Pkgs: rootPkg,
+	"C07": {ID: "C07", Level: "other", Pkgs: rootPkg, Extra: modeScan("C07"),
 		Explain: "Sender: per dequeued request exactly one of {handed to sendMsg successfully, one error routed}, every error stamped with the node's id; receiver: on a stream error cancelPendingMsgs runs before anything that can block; cancelPendingMsgs answers every pending router once with the Unavailable stream-down error and removes it; reply loops record one nodeError per failed answer; WrapMessage maps handler errors to their status (Unknown + text for non-status errors). The kind of raw gRPC send errors is not decided."},
 	"C08": {ID: "C08", Level: "other", Pkgs: rootPkg,
 		Explain: "Blocking-effect contracts: every blocking point on a call's own path (RPCCall, QuorumCall, AsyncCall and its handler, CorrectableCall and its handler, Unicast, Multicast, enqueue, sendMsg and its watcher) is a select containing the call's own context, a credited (non-blocking) send, a short-hold lock, or an external stream call trusted to return on cancellation. RPCCall returns the context's own error. Structural condition only: no wall-clock bound is claimed."},
@@ -272,6 +272,6 @@ var plans = map[string]*propertyPlan{
 		Explain: "On every run the plugin is built from the working tree and run on CodeGeneratorRequests assembled from the descriptors the repository's packages register (no protoc); its output replaces the committed *_gorums.pb.go as a go/packages overlay. Part 1 (binding) runs on descriptors whose methods are renamed in memory to lower_snake_case - every generated Go identifier stays as it is, but every wire name now differs from all of them: every regenerated client stub is symbolically executed against a schema contract rendered from the descriptor (not from the templates): it calls exactly the runtime entry of its call type, once, with Method == the method's full name, the caller's request and context, per-node adapter iff per_node_arg, quorum function set, ServerStream as declared, options passed through; every Register<S>Server registers each method exactly once under its full name with a handler that calls that implementation method once, releases on return and replies per its shape. Part 2 (currency): regenerated output and a fresh bundle equal the committed files, comments aside."},
 	"C18": {ID: "C18", Level: "proof", Pkgs: rootPkg,
 		Explain: "No residue: a non-streaming router is deleted in the critical section that answers it (routeResponse, cancelPendingMsgs - which leaves no router at all); enqueue registers nothing for a nil reply channel; sendMsg's confirmation removes the one-way router on every path; sendMsg closes its watcher's done channel exactly once on every path after starting it; the handler goroutines of async and correctable calls leave their loop exactly under the completion conditions and close/complete exactly once."},
-	"C19": {ID: "C19", Level: "proof", Pkgs: rootPkg,
+	"C19": {ID: "C19", Level: "proof", Pkgs: rootPkg, Extra: modeScan("C19"),
 		Explain: "Less is proved equal to the lexicographic combination of its keys (loop invariant over a recursive spec function); each provided key's real code is inlined into four strict-weak-order lemmas; Sort/Swap/Len contracts tie sort.Sort's trusted contract to the node slice."},
 }
